@@ -169,7 +169,8 @@ def run(ctx):
     # ---------------------------------------------------------------- strings
     alphabet = ['a', 'Z', '0', ' ', '\x00', '\x7f', '\x80', 'é', '߿', 'ࠀ', '世', '￿', '\U00010000',
                 '\U0001f600', '\U0010ffff']
-    strs = ['', 'a', 'é', '世', '\U0001f600', 'a' * 127, 'a' * 128, 'é' * 64, 'a' * 16383, 'a' * 16384, '世' * 5462]
+    strs = ['', 'a', 'é', '世', '\U0001f600', 'a' * 127, 'a' * 128, 'é' * 64, 'a' * 16383, 'a' * 16384, '世' * 5462,
+            '\ufeff', '\ufeffabc', 'a\ufeffb', '\ufeff\ufeff', 'é' * 16384, '世' * 10923, '\U0001f600' * 8192, 'a' * 32767, 'a' * 32768]
     strs += [''.join(rng.choice(alphabet) for _ in range(rng.choice([1, 2, 5, 40, 130]))) for _ in range(ctx.scale(200, 3000))]
     for sv in strs:
         u = sv.encode('utf-8')
